@@ -457,3 +457,45 @@ func bump(fd protoreflect.FieldDescriptor, v protoreflect.Value) protoreflect.Va
 	}
 	return v
 }
+
+// Sanitize prepares a message decoded from fuzzer bytes for use as a case: unknown fields are dropped everywhere, and
+// it reports false when the message contains a float -0 (protobuf-go's fast path Clone/Merge drop a lone -0 although
+// reflection sees it as set; the generators never produce it for the same reason).
+func Sanitize(m proto.Message) bool {
+	ok := true
+	var walk func(m protoreflect.Message)
+	checkVal := func(fd protoreflect.FieldDescriptor, v protoreflect.Value) {
+		switch fd.Kind() {
+		case protoreflect.FloatKind, protoreflect.DoubleKind:
+			if f := v.Float(); f == 0 && math.Signbit(f) {
+				ok = false
+			}
+		case protoreflect.MessageKind, protoreflect.GroupKind:
+			walk(v.Message())
+		}
+	}
+	walk = func(m protoreflect.Message) {
+		if len(m.GetUnknown()) > 0 {
+			m.SetUnknown(nil)
+		}
+		m.Range(func(fd protoreflect.FieldDescriptor, v protoreflect.Value) bool {
+			switch {
+			case fd.IsList():
+				l := v.List()
+				for i := 0; i < l.Len(); i++ {
+					checkVal(fd, l.Get(i))
+				}
+			case fd.IsMap():
+				v.Map().Range(func(k protoreflect.MapKey, mv protoreflect.Value) bool {
+					checkVal(fd.MapValue(), mv)
+					return true
+				})
+			default:
+				checkVal(fd, v)
+			}
+			return true
+		})
+	}
+	walk(m.ProtoReflect())
+	return ok
+}
